@@ -59,6 +59,14 @@ CLAIMED = {
         technique="MIR path census of fee-transfer invocations per chain step keyed by the fees_paid / zero-base conditions, constant propagation of the flag through the in-flight record, operand-origin and formula matching for fee base, routing and CalcFee",
         note="Decided: R12.1 fee-transfer call counts per chain path (Open once across a reversal, Close once unless base zero, none for Liquidate/PayFunding/Deposit/Withdraw); R12.2 fees_paid false at every execute store, true before the chained increase, increase reply charges iff false; R12.3 fee base = margin*leverage/decimals captured before the reversal rewrites it, position.notional on whole close; R12.4 spread -> config.insurance_fund, toll -> config.fee_pool, payer = trader argument; R12.5 CalcFee trees. Not decided: rounding beyond the floor divisions in the trees.",
         design="4/C12"),
+    "C05": dict(
+        technique="MIR guard facts with formula matching of the compared operands, event ordering on success paths (store before margin-ratio query), stored-value and transfer-amount flow",
+        note="Decided: R05.1 leverage >= decimals and decimals^2/leverage >= config.initial_margin_ratio on every OpenPosition success path; R05.2 every Open chain ending with a live stored position queries that position's margin ratio after the store and establishes it >= config.maintenance_margin_ratio; R05.3 WithdrawMargin: bad-debt guard, signed (free collateral - amount) >= 0 guard for (msg.vamm, info.sender), payout exactly msg.amount to info.sender, stored margin = remain_margin(position, -amount).margin; R05.4 DepositMargin stores margin + msg.amount and collects exactly msg.amount in both collateral arms. Not decided: correctness of the margin-ratio / free-collateral formulas beyond operand selection (R06.3).",
+        design="4/C05"),
+    "C06": dict(
+        technique="MIR guard facts and expression-tree pattern matching: liquidation guard and ratio selection, spot/TWAP selection sibling agreement, spread-limit tree, fee and partial-amount trees, receiver classes",
+        note="Decided: R06.1 selected ratio <= maintenance on every Liquidate success path; R06.2 oracle ratio selected iff over-spread and (oracle - base) > 0, else the base ratio of (msg.vamm, msg.trader); R06.3 TWAP figures iff |spot pnl| > |twap pnl| in MarginRatio and FreeCollateral; R06.4 |((quote*D/base - oracle)*D)/oracle| >= D/10; R06.5 liquidator fee (output*fee/D)/2, only liquidator and insurance fund receive, position removed; R06.6 partial swap amount size*ratio/D, equal penalty halves. Not decided: numeric outcome; overshoot of a partial liquidation (C02 sign table).",
+        design="4/C06"),
 }
 
 NOT_BUILT = "rules designed in DESIGN.md section 4 but not built yet"
